@@ -118,8 +118,12 @@ def err_rewrapped_into(fn, call_bi, handler_blocks):
             if 'l' not in a or not is_result_ty(fn.local_ty(a['l'])):
                 continue
             for o in deep_origins(fn, a):
-                if o[0] == 'wrap:Err' and o[1][0] == 'field' and o[1][1][0] == 'call' and any(p.startswith('as Err') for p in o[1][2]):
-                    if derives_from_call(fn, o[1][1][1], call_bi):
+                if o[0] == 'wrap:Err' and o[1][0] == 'field' and any(p.startswith('as Err') for p in o[1][2]):
+                    base = o[1][1]
+                    # the awaited value:  ((poll as Ready).0 as Err).0
+                    while base[0] == 'field' and all(p.startswith('as Ready') or p == '.0' for p in base[2]):
+                        base = base[1]
+                    if base[0] == 'call' and derives_from_call(fn, base[1], call_bi):
                         hit.add(cb)
     return hit
 
